@@ -73,10 +73,14 @@ Inductive kind : Type :=
 | KOutput                    (* sdk.Output: nearest publication *)
 | KNext | KPrev | KLinear
 | KStep (num den : Z)        (* StepTime(step = num/den), den > 0 *)
-| KAvg | KSum.               (* AvgOverTime / SumOverTime *)
+| KAvg | KSum                (* AvgOverTime / SumOverTime *)
+| KStatic.                   (* sdk.Output(static=True): a single publication without time *)
 
 Definition is_integ (k : kind) : bool :=
   match k with KAvg | KSum => true | _ => false end.
+
+Definition is_static (k : kind) : bool :=
+  match k with KStatic => true | _ => false end.
 
 Section Readers.
   Context {E : Type}.
@@ -136,7 +140,8 @@ Section Readers.
     match b with
     | [] => None
     | (t0, e0) :: r =>
-        if negb (in_range b time) then None
+        if is_static k then Some [e0]     (* output.py 268: self._unpack(self.data[0][1]), any time *)
+        else if negb (in_range b time) then None
         else match k with
              | KOutput => scan k None b time
              | KAvg =>
@@ -248,13 +253,21 @@ Section Slot.
       (mk (s_buf s) (s_total s + size) (s_counter s) (s_conn s) (s_prev s) (s_fs s) (s_log s),
        InRam p size).
 
+  (** output.py 176-180: a static output that already holds its publication raises
+      FinamStaticDataError before anything is prepared or packed — whatever the entry is. *)
+  Definition refused (k : kind) (b : buffer) : bool :=
+    is_static k && match b with [] => false | _ :: _ => true end.
+
   (** output.py 195-196, time.py 244-245, time_integration.py 29-33 *)
-  Definition push (c : config) (s : state) (t : Z) (p : P) (size : Z) : state :=
+  Definition push_accept (c : config) (s : state) (t : Z) (p : P) (size : Z) : state :=
     let '(s1, e) := pack c s p size in
     let prev' := if is_integ (c_kind c)
                  then match s_prev s with None => Some t | x => x end
                  else s_prev s in
     mk (s_buf s1 ++ [(t, e)]) (s_total s1) (s_counter s1) (s_conn s1) prev' (s_fs s1) (s_log s1).
+
+  Definition push (c : config) (s : state) (t : Z) (p : P) (size : Z) : state :=
+    if refused (c_kind c) (s_buf s) then s else push_accept c s t p size.
 
   Definition store : Type := (Z * fsys F * list fsev)%type.
 
@@ -284,6 +297,7 @@ Section Slot.
     match k with
     | KOutput => let c' := set_conn key time (s_conn s) in (c', s_prev s, conn_min c')
     | KAvg | KSum => (s_conn s, Some time, s_prev s)
+    | KStatic => (s_conn s, s_prev s, None)       (* output.py 273: no _clear_data for static outputs *)
     | _ => (s_conn s, s_prev s, Some time)
     end.
 
